@@ -132,6 +132,21 @@ def gen_C12(tier, seed):
             p.add(lf, 'axis', 'AX', coordinates=L(I(v), I(1)))
             p.write(1, valid=False, mustraise='intrange')
             progs.append(p.build())
+        # a list for a single-valued attribute
+        for cls, kw_ in [('origin', {'file_type': L(S('a'), S('b'))}), ('zone', {'description': L(S('x'), S('y'))}),
+                         ('equipment', {'serial_number': L(S('S1'), S('S2'))})]:
+            p = fringe(f'listscalar-{cls}-{r_}', 'listscalar')
+            p.file(1)
+            lf = p.lf(1, fh_id='HDR')
+            if cls == 'origin':
+                p.origin(lf, name='O', company=S('ACME'), **kw_)
+            else:
+                p.origin(lf, name='O', company=S('ACME'))
+                p.add(lf, cls, 'OBJ', **kw_)
+            c = p.channel(lf, 'CH', data=np.arange(3, dtype='float64'))
+            p.frame(lf, 'FR', [c])
+            p.write(1, valid=False, mustraise='listscalar')
+            progs.append(p.build())
         # no origin / channels / frames
         p = fringe(f'noorigin-{r_}', 'noorigin')
         minimal(p, origin=False)
